@@ -193,9 +193,11 @@ def twin_date(s):
     if _DATE_CANON.match(s):
         y, mo, d, h, mi, se = int(s[0:4]), int(s[5:7]), int(s[8:10]), int(s[11:13]), int(s[14:16]), int(s[17:19])
         dim = [31, 29 if (y % 4 == 0 and (y % 100 != 0 or y % 400 == 0)) else 28, 31, 30, 31, 30, 31, 31, 30, 31, 30, 31]
-        if y >= 1 and 1 <= mo <= 12 and 1 <= d <= dim[mo - 1] and h <= 23 and mi <= 59 and se <= 59:
+        if not (1 <= mo <= 12 and 1 <= d <= dim[mo - 1] and h <= 24 and mi <= 59 and se <= 60):
+            return REJECT       # canonical spelling of an instant that does not exist (Feb 30, month 13, day 00, 25:00, :60 minutes)
+        if y >= 1 and h <= 23 and se <= 59:
             return ACCEPT
-        return UNSPEC       # lexically canonical but not a real calendar instant (Feb 30, 24:00, :60, year 0)
+        return UNSPEC           # 24:00:00, a leap second, year 0000: conventions differ
     if _DATE_LOOSE.match(s):
         return UNSPEC       # unpadded, lower-case t/z, non-ASCII digits: strptime-tolerated spellings
     return REJECT
